@@ -2,6 +2,10 @@
 # tools/benign_eval.sh [<dir>…] : behaviour-preserving changes kept under /verif/benign/<id>/patch.diff are applied to a
 # scratch tree one at a time and ALL quick checks are run; every one must exit 0 (no VIOLATION): a false-alarm test.
 set -u
+# the evaluation works on a snapshot of /verif taken now, so that editing the harness meanwhile does not disturb it
+export VERIF_EVAL_ROOT=$(mktemp -d /tmp/verif-eval-XXXXXX)
+rsync -a --exclude .build --exclude replays --exclude .git /verif/ "$VERIF_EVAL_ROOT"/
+trap 'rm -rf "$VERIF_EVAL_ROOT"' EXIT
 cd /verif/benign || exit 2
 ids=${@:-$(ls -d */ | tr -d /)}
 ALL="C01 C02 C03 C04 C06 C07 C09 C10 C11 C12 C13 C14 C15 C16 C18 C20"
